@@ -39,6 +39,13 @@ Fixpoint jddd (v : ddd) : jv :=
   | DDur s => jtag "dur" [JZ s]
   | DPeriod a b => jtag "period" [jddd a; jddd b]
   end.
+(* readings of texts: a grammar-valid duration may denote any number of seconds *)
+Fixpoint jddd_big (v : ddd) : jv :=
+  match v with
+  | DDur s => jtag "dur" [jbig s]
+  | DPeriod a b => jtag "period" [jddd_big a; jddd_big b]
+  | _ => jddd v
+  end.
 Definition dt_of (l : list jv) : option dt :=
   match l with
   | [JZ y; JZ m; JZ d; JZ h; JZ mi; JZ s; JZ u] => Some (y, m, d, h, mi, s, negb (u =? 0))
@@ -138,7 +145,7 @@ Definition c03_table : list (str * (jv -> jv)) :=
    (s2l "offset_value", fun a : jv =>
       on_str a (fun s => jopt JZ (offset_value s)));
    (s2l "period_value", fun a : jv =>
-      on_str a (fun s => jopt jddd (period_value s)));
+      on_str a (fun s => jopt jddd_big (period_value s)));
    (s2l "int_value", fun a : jv =>
       on_str a (fun s => jopt jbig (int_value s)));
    (s2l "bool_value", fun a : jv =>
@@ -152,7 +159,28 @@ Definition c03_table : list (str * (jv -> jv)) :=
    (s2l "month_value", fun a : jv =>
       on_str a (fun s => jopt jmonth (month_value s)));
    (s2l "uri_grammar", fun a : jv =>
-      on_str a (fun s => jbool (uri_grammar s)))].
+      on_str a (fun s => jbool (uri_grammar s)));
+   (* readings, guards and predictions of the grammar => value theorems (Proofs/CodecGrammarProofs.v) *)
+   (s2l "ddd_value", fun a : jv =>
+      on_str a (fun s => jopt jddd_big (ddd_value s)));
+   (s2l "ddd_guard", fun a : jv =>
+      on_str a (fun s => match ddd_value s with
+                         | Some v => jbool (ddd_guard v && (List.length s <=? 4300)%nat)
+                         | None => jnone end));
+   (s2l "ddd_expected", fun a : jv =>
+      on_str a (fun s => match ddd_value s with Some v => cres jddd (ddd_expected v) | None => jnone end));
+   (s2l "ddd_grammar_ci", fun a : jv =>
+      on_str a (fun s => jbool (ddd_grammar_ci s)));
+   (s2l "period_guard", fun a : jv =>
+      on_str a (fun s => match period_value s with
+                         | Some v => jbool (ddd_guard v && (List.length s <=? 4300)%nat)
+                         | None => jnone end));
+   (s2l "period_expected", fun a : jv =>
+      on_str a (fun s => match period_value s with Some v => cres jddd (ddd_expected v) | None => jnone end));
+   (s2l "binary_value", fun a : jv =>
+      on_str a (fun s => jopt JS (binary_value s)));
+   (s2l "binary_canonical", fun a : jv =>
+      on_str a (fun s => jbool (binary_canonical s)))].
 
 Fixpoint c03_lookup (f : list N) (t : list (str * (jv -> jv))) : option (jv -> jv) :=
   match t with
